@@ -488,6 +488,7 @@ func (x *Unit) sentinelFacts(v T) {
 		x.fact(Not(Eq(v, other)))
 	}
 	x.errGlobals = append(x.errGlobals, v)
+	x.fact(Eq(x.uf("errcause", SIface, v), v)) // a sentinel error wraps nothing: it is its own cause
 	if x.entry != nil {
 		x.fact(And(Cmp(">=", IfaceVal(v), IntLit(0)), Cmp("<=", x.proot(IfaceVal(v)), x.entry.alloc)))
 	}
@@ -1384,6 +1385,12 @@ func (x *Unit) evalTypeAssert(st *State, e *ast.TypeAssertExpr, n int) []Val {
 	out.T = x.define("assert", out.T)
 	x.reflectLenFact(v, out, ok)
 	if n == 2 {
+		_, isPtr := under(to).(*types.Pointer)
+		_, isMap := under(to).(*types.Map)
+		if (isPtr || isMap) && out.Sort == SInt {
+			x.note("a pointer obtained from an interface value by a successful type assertion or type switch is non-nil (no typed nil pointers in interfaces)")
+			x.assume(st, Imp(ok, Cmp(">", out.T, IntLit(0))))
+		}
 		return []Val{out, {ok, types.Typ[types.Bool]}}
 	}
 	x.oblige(st, "typeassert", x.srcOf(e), ok, e)
@@ -1403,7 +1410,9 @@ func (x *Unit) reflectLenFact(iface Val, unboxed Val, isType T) {
 // assumeNoTypedNil: a pointer taken out of an interface value by a successful type test is not nil
 // (typed nil pointers are not stored in interfaces: a convention of this code base, listed as an assumption).
 func (x *Unit) assumeNoTypedNil(st *State, v Val) {
-	if _, ok := under(v.Typ).(*types.Pointer); ok && v.Sort == SInt {
+	_, isPtr := under(v.Typ).(*types.Pointer)
+	_, isMap := under(v.Typ).(*types.Map)
+	if (isPtr || isMap) && v.Sort == SInt {
 		x.note("a pointer obtained from an interface value by a successful type assertion or type switch is non-nil (no typed nil pointers in interfaces)")
 		x.assume(st, Cmp(">", v.T, IntLit(0)))
 	}
